@@ -9,7 +9,7 @@ use miniz_oxide::DataFormat;
 use serde_json::{json, Value};
 use std::collections::BTreeMap;
 
-pub const CONTENTS: [&str; 9] = ["zeros", "R", "S3", "T", "alt", "ff", "H", "Hm", "Rm"];
+pub const CONTENTS: [&str; 10] = ["zeros", "R", "S3", "T", "alt", "ff", "H", "Hm", "Rm", "Hs"];
 
 pub fn content(kind: &str, n: usize) -> Vec<u8> {
     let salt = crate::util::seed();
@@ -21,6 +21,11 @@ pub fn content(kind: &str, n: usize) -> Vec<u8> {
         "T" => build_shape(&[(Seg::T, n)], salt),
         "alt" => (0..n).map(|i| if i % 2 == 0 { 0xaa } else { 0x55 }).collect(),
         "H" => build_shape(&[(Seg::H, n)], salt),
+        "Hs" => {
+            // every byte value occurs, but ~90% of the bytes are >= 144 (9-bit static codes)
+            let mut l = Lcg(0x4873 ^ salt);
+            (0..n).map(|i| if i < 256 { i as u8 } else { let x = l.next_u32(); if x % 10 == 0 { (x >> 8) as u8 % 144 } else { 144 + ((x >> 8) % 112) as u8 } }).collect()
+        }
         "Hm" | "Rm" => {
             // incompressible with one 258-byte repeat planted every ~25 K (keeps a block "non-fat")
             let mut v = build_shape(&[(if kind == "Hm" { Seg::H } else { Seg::R }, n)], salt);
@@ -128,7 +133,7 @@ pub fn run(tier: &str) -> i32 {
                     if !th {
                         // quick: all levels x strategies on the threshold sizes for the adversarial
                         // contents, a diagonal elsewhere
-                        let adversarial = matches!(CONTENTS[ki], "H" | "Hm" | "R" | "Rm");
+                        let adversarial = matches!(CONTENTS[ki], "H" | "Hm" | "R" | "Rm" | "Hs");
                         if small && (n + ki + (level + 1) as usize + strat as usize) % 5 != 0 {
                             continue;
                         }
@@ -182,7 +187,7 @@ pub fn run(tier: &str) -> i32 {
     rep.set("max_size", json!(sz.last()));
     rep.set("slack_by_content_and_strategy", json!(slack));
     rep.set("exhaustive", json!(true));
-    rep.set("rule", json!("n in 0..=300 (all) + every compressor threshold +-1 + k*31744+-1, k*65536+-1 (k<=4) + 5120+-1, 40000, 58000, 1 MiB (+-1 and 4 MiB in thorough); content in {zeros, R (incompressible), S3 (sparse 3-byte matches), T (skewed text), alternating, ff, H (incompressible, all bytes >= 144), Hm/Rm (H/R with a 258-byte repeat every 20-30 K)}; levels -1..=10 x strategies 0..=4; through mz_deflateInit2 + one mz_deflate(MZ_FINISH) with avail_out = mz_deflateBound(n) on guard-paged buffers, CompressorOxide::with_params one-shot, and mz_compress2 with *dest_len = mz_compressBound(n); non-trivial = n > 300; cases distinct by construction"));
+    rep.set("rule", json!("n in 0..=300 (all) + every compressor threshold +-1 + k*31744+-1, k*65536+-1 (k<=4) + 5120+-1, 40000, 58000, 1 MiB (+-1 and 4 MiB in thorough); content in {zeros, R (incompressible), Hs (all byte values, 90% >= 144), S3 (sparse 3-byte matches), T (skewed text), alternating, ff, H (incompressible, all bytes >= 144), Hm/Rm (H/R with a 258-byte repeat every 20-30 K)}; levels -1..=10 x strategies 0..=4; through mz_deflateInit2 + one mz_deflate(MZ_FINISH) with avail_out = mz_deflateBound(n) on guard-paged buffers, CompressorOxide::with_params one-shot, and mz_compress2 with *dest_len = mz_compressBound(n); non-trivial = n > 300; cases distinct by construction"));
     rep.sample(json!({"content": "H", "n": 40000, "level": 1, "strategy": 4}));
     rep.sample(json!({"content": "Rm", "n": 65537, "level": 6, "strategy": 0}));
     if evals < 5000 {
